@@ -11,7 +11,10 @@ EXPLANATION = (
 )
 NOT_DECIDED = ["collisions of user-chosen internal names across exchanges (documented precondition)",
                "sort/dedup/enumerate library semantics"]
-ASSUMPTIONS = ["Vec::sort/dedup/enumerate, indexmap insertion order"]
+ASSUMPTIONS = ["Vec::sort/dedup/enumerate, indexmap insertion order",
+               "InstrumentNameInternal is unique across exchanges (documented in barter-instrument/src/instrument/name.rs, NOT enforced by "
+               "the builder): InstrumentStates is keyed by it, so two distinct instruments sharing an internal name collapse into one "
+               "state and later positions shift - findings/observation_C11_name_collision.rs; treated as a violated precondition, see DESIGN 11.10"]
 TECHNIQUE = "index-space discipline: builder ordering (dominance), aligned-table fill chains, who-may-write"
 
 
